@@ -63,6 +63,8 @@ pub enum Size {
     One,
     Five,
     Chunks,
+    /// 12 x 8 KiB = 96 KiB (past any "large value" threshold of 64 KiB), written by twelve write calls
+    Large,
 }
 
 #[derive(Clone, Copy, Debug, PartialEq, Eq, Hash, PartialOrd, Ord)]
@@ -73,6 +75,7 @@ pub struct Val {
 
 pub const CHUNK: usize = 8192;
 pub const NCHUNKS: usize = 3;
+pub const LARGE_CHUNKS: usize = 12;
 
 impl Val {
     pub fn new(id: u8, size: Size) -> Val {
@@ -90,7 +93,7 @@ impl Val {
             Size::Empty => vec![],
             Size::One => vec![vec![b'A' + self.id]],
             Size::Five => vec![vec![b'a' + self.id; 5]],
-            Size::Chunks => (0..NCHUNKS)
+            Size::Chunks | Size::Large => (0..if self.size == Size::Large { LARGE_CHUNKS } else { NCHUNKS })
                 .map(|j| {
                     let mut c = Vec::with_capacity(CHUNK);
                     let mut k: u16 = 0;
@@ -120,6 +123,7 @@ impl Val {
                 Size::One => "1",
                 Size::Five => "5",
                 Size::Chunks => "c",
+                Size::Large => "L",
             }
         )
     }
@@ -147,6 +151,12 @@ pub fn identify(bytes: &[u8]) -> Option<Val> {
                 return None;
             }
             Val::new(bytes[0] - b'0', Size::Chunks)
+        }
+        n if n == CHUNK * LARGE_CHUNKS => {
+            if bytes[0] < b'0' {
+                return None;
+            }
+            Val::new(bytes[0] - b'0', Size::Large)
         }
         _ => return None,
     };
@@ -391,6 +401,9 @@ pub fn diff(a: &Snapshot, b: &Snapshot, ignore_file_atime: bool) -> Vec<(String,
                 }
                 if na.meta.ino != nb.meta.ino {
                     push("inode", k);
+                }
+                if na.meta.nlink != nb.meta.nlink {
+                    push("nlink", k);
                 }
             }
         }
